@@ -64,6 +64,7 @@ type wOp struct {
 	Fail  bool       `json:"fail,omitempty"`  // start: the generator expects RunHandlers to return an error (a constructor still fails)
 	Early bool       `json:"early,omitempty"` // stop: the following ops marked Win run inside the teardown window (name free, Stopped() not closed yet)
 	Win   bool       `json:"win,omitempty"`
+	Lib   bool       `json:"lib,omitempty"`   // addpubdec/addsubdec: the decorator is the library's own MessageTransform{Publisher,Subscriber}Decorator with a recording transform
 	Names []string   `json:"names,omitempty"` // startasync: the handlers whose goroutines are held before their copy of r.middlewares
 }
 
@@ -391,11 +392,23 @@ func (t *tagPub) Close() error {
 	return t.inner.Close()
 }
 
-func (r *wRun) pubDecorator(id int, fails int) message.PublisherDecorator {
+func (r *wRun) pubDecorator(id int, fails int, lib bool) message.PublisherDecorator {
 	var calls int32
+	// the library's transform decorator sees the batch message by message: one "pubdecmsg" mark per message
+	// (folded into one batch mark by checks/wiring.py); the topic is the one the message's context names
+	libDec := message.MessageTransformPublisherDecorator(func(m *message.Message) {
+		if c := r.copyOf(m); c != nil {
+			c.rec("pubdecmsg", id, r.in.ID(message.PublishTopicFromCtx(m.Context())), r.outIDs(c, []*message.Message{m})[0])
+		} else {
+			r.anomaly("publisher decorator %d saw an unknown message %s", id, m.UUID)
+		}
+	})
 	return func(p message.Publisher) (message.Publisher, error) {
 		if int(atomic.AddInt32(&calls, 1)) <= fails {
 			return nil, fmt.Errorf("scripted failure of publisher decorator %d", id)
+		}
+		if lib {
+			return libDec(p)
 		}
 		return &tagPub{r: r, id: id, inner: p}, nil
 	}
@@ -427,11 +440,19 @@ func (t *tagSub) Subscribe(ctx context.Context, topic string) (<-chan *message.M
 
 func (t *tagSub) Close() error { return t.inner.Close() }
 
-func (r *wRun) subDecorator(id int, fails int) message.SubscriberDecorator {
+func (r *wRun) subDecorator(id int, fails int, lib bool) message.SubscriberDecorator {
 	var calls int32
+	libDec := message.MessageTransformSubscriberDecorator(func(m *message.Message) {
+		if c := r.copyOf(m); c != nil {
+			c.rec("sub", id, r.ctx5(m.Context()))
+		}
+	})
 	return func(s message.Subscriber) (message.Subscriber, error) {
 		if int(atomic.AddInt32(&calls, 1)) <= fails {
 			return nil, fmt.Errorf("scripted failure of subscriber decorator %d", id)
+		}
+		if lib {
+			return libDec(s)
 		}
 		return &tagSub{r: r, id: id, inner: s}, nil
 	}
@@ -523,10 +544,24 @@ func (r *wRun) tryAddHandler(router *message.Router, h *wHandler) (hd *message.H
 	return hd, false
 }
 
+// StructName of the library's own decorator types: what a pre-decorated collaborator reports
+const wLibSubTy = "message.messageTransformSubscriberDecorator"
+const wLibPubTy = "message.messageTransformPublisherDecorator"
+
 func wRunProgram(p *wProgram, in *script.Interner) {
 	r := &wRun{p: p, byPtr: map[*message.Message]*wCopy{}, byKey: map[string]*wCopy{}, in: in, outputs: map[int][]*message.Message{}}
 	for i, ty := range p.SubTy {
-		if ty == "main.plainFanSub" {
+		if ty == wLibSubTy {
+			// the application hands the router a subscriber it has ALREADY wrapped with the library's transform
+			// decorator (once or twice); the same wrapped object is shared by all handlers that use it
+			s := &plainFanSub{}
+			var w message.Subscriber = s
+			for k := 0; k <= i%2; k++ {
+				w, _ = message.MessageTransformSubscriberDecorator(func(*message.Message) {})(w)
+			}
+			r.subs = append(r.subs, w)
+			r.fans = append(r.fans, &s.fanSub)
+		} else if ty == "main.plainFanSub" {
 			s := &plainFanSub{}
 			r.subs = append(r.subs, s)
 			r.fans = append(r.fans, &s.fanSub)
@@ -540,7 +575,11 @@ func wRunProgram(p *wProgram, in *script.Interner) {
 	for i, ty := range p.PubTy {
 		sp := &script.Publisher{Name: ty, OnPublish: r.onPublish(i)}
 		r.pubs = append(r.pubs, sp)
-		if ty == "script.Publisher" {
+		if ty == wLibPubTy {
+			sp.Name = ""
+			w, _ := message.MessageTransformPublisherDecorator(func(*message.Message) {})(sp)
+			r.pubIfs = append(r.pubIfs, w)
+		} else if ty == "script.Publisher" {
 			r.pubIfs = append(r.pubIfs, sp)
 		} else {
 			r.pubIfs = append(r.pubIfs, &namedPub{Publisher: sp, name: ty})
@@ -624,13 +663,13 @@ func wRunProgram(p *wProgram, in *script.Interner) {
 		case "addpubdec":
 			var ds []message.PublisherDecorator
 			for _, g := range group {
-				ds = append(ds, r.pubDecorator(g.ID, g.Fails))
+				ds = append(ds, r.pubDecorator(g.ID, g.Fails, g.Lib))
 			}
 			router.AddPublisherDecorators(ds...)
 		case "addsubdec":
 			var ds []message.SubscriberDecorator
 			for _, g := range group {
-				ds = append(ds, r.subDecorator(g.ID, g.Fails))
+				ds = append(ds, r.subDecorator(g.ID, g.Fails, g.Lib))
 			}
 			router.AddSubscriberDecorators(ds...)
 		case "start", "startasync":
@@ -911,6 +950,7 @@ type wGen struct {
 	decs    []*wOp // decorator registrations, in order (pub and sub), with the remaining failures in budget
 	budget  map[int]int
 	stress  int
+	libPub  bool // the library's MessageTransformPublisherDecorator may be registered (then no nil publishers)
 }
 
 func (g *wGen) pick(n int) int { return g.rng.Intn(n) }
@@ -924,6 +964,9 @@ func (g *wGen) newHandler(name string) *wHandler {
 		h.PubKind = 1
 	default:
 		h.PubKind, h.PubTopic = 2, "o1"
+		if g.libPub {
+			h.PubKind, h.PubTopic = 1, ""
+		}
 	}
 	return h
 }
@@ -1212,6 +1255,7 @@ func (g *wGen) registration() {
 			g.op(&wOp{K: "addhmw", Name: hname, ID: g.nextID, App: g.pick(4) == 0, Grp: grp})
 		default:
 			o := &wOp{K: []string{"addpubdec", "addsubdec"}[kind-2], ID: g.nextID, Grp: grp}
+			o.Lib = g.pick(2) == 0 && (kind == 3 || g.libPub)
 			if g.faulty && g.running && g.pick(2) == 0 {
 				o.Fails = 1 + g.pick(2)
 				g.budget[o.ID] = o.Fails
@@ -1225,16 +1269,18 @@ func (g *wGen) registration() {
 func newProgram(rng *rand.Rand, kind string) *wGen {
 	p := &wProgram{Kind: kind, Obs: [][]*wCopy{}, Anomaly: []string{}}
 	nsub := 1 + rng.Intn(3)
-	subTypes := []string{"main.plainFanSub", "gochannel.GoChannel", "fan.Sub", "", "fan.Sub"}
+	subTypes := []string{"main.plainFanSub", "gochannel.GoChannel", "fan.Sub", "", "fan.Sub", wLibSubTy, wLibSubTy}
 	for i := 0; i < nsub; i++ {
 		p.SubTy = append(p.SubTy, subTypes[rng.Intn(len(subTypes))])
 	}
 	npub := 1 + rng.Intn(3)
-	pubTypes := []string{"script.Publisher", "kafka.Publisher", "", "kafka.Publisher"}
+	pubTypes := []string{"script.Publisher", "kafka.Publisher", "", "kafka.Publisher", wLibPubTy}
 	for i := 0; i < npub; i++ {
 		p.PubTy = append(p.PubTy, pubTypes[rng.Intn(len(pubTypes))])
 	}
-	return &wGen{rng: rng, p: p, started: map[string]bool{}, budget: map[int]int{}}
+	// a nil publisher under the library's embedding publisher decorator panics in Close() when the handler stops
+	// (the whole process): programs use either nil publishers or the library's publisher decorator, not both
+	return &wGen{rng: rng, p: p, started: map[string]bool{}, budget: map[int]int{}, libPub: rng.Intn(2) == 0}
 }
 
 // random program: phases of registrations and AddHandler calls, each closed by a start and deliveries
@@ -1370,6 +1416,13 @@ func genDecorators(rng *rand.Rand, npub, nsub int) *wProgram {
 	if hB.PubKind == 2 {
 		hB.PubTopic = "ob"
 	}
+	if rng.Intn(2) == 0 {
+		// both handlers share ONE subscriber object that the application pre-decorated with the library's transform decorator
+		g.p.SubTy = []string{wLibSubTy}
+	}
+	if rng.Intn(3) == 0 {
+		g.p.PubTy = []string{wLibPubTy}
+	}
 	seq := []int{}
 	for i := 0; i < npub; i++ {
 		seq = append(seq, 0)
@@ -1393,9 +1446,9 @@ func genDecorators(rng *rand.Rand, npub, nsub int) *wProgram {
 		}
 		g.nextID++
 		if seq[i] == 0 {
-			g.op(&wOp{K: "addpubdec", ID: g.nextID})
+			g.op(&wOp{K: "addpubdec", ID: g.nextID, Lib: hB.PubKind != 2 && rng.Intn(2) == 0})
 		} else {
-			g.op(&wOp{K: "addsubdec", ID: g.nextID})
+			g.op(&wOp{K: "addsubdec", ID: g.nextID, Lib: rng.Intn(2) == 0})
 		}
 	}
 	g.nextID++
